@@ -54,7 +54,8 @@ impl PeerDyn {
 }
 
 /// The store, owned-stream model (see inc/prioritize.inc): `resolve`/`pop` hand a stream out, transition_after hands it back.
-pub struct SStore { pub out: Ghost<int> }
+/// `passes`: ghost count of COMPLETED iterations over all stored streams (Store::for_each / try_for_each ran to the end)
+pub struct SStore { pub out: Ghost<int>, pub passes: Ghost<int> }
 impl SStore {
     pub open spec fn held(self) -> int { self.out@ }
 
@@ -65,7 +66,7 @@ impl SStore {
     /// the Kani unit on Store::index).  The handle being dropped was counted: ref_count > 0.
     #[verifier::external_body]
     pub fn resolve(&mut self, key: Key) -> (s: Stream)
-        ensures s == old(self).spec_get(key) && s.key == key && s.ref_count > 0 && final(self).held() == old(self).held() + 1,
+        ensures s == old(self).spec_get(key) && s.key == key && s.ref_count > 0 && final(self).held() == old(self).held() + 1 && final(self).passes@ == old(self).passes@,
     { unimplemented!() }
 }
 
@@ -74,15 +75,15 @@ impl SStore {
     /// rewritten into `iter_begin(); loop { match iter_next() { Some(stream) => BODY, None => break } }`
     #[verifier::external_body]
     pub fn iter_begin(&mut self)
-        ensures final(self).held() == old(self).held(),
+        ensures final(self).held() == old(self).held() && final(self).passes@ == old(self).passes@,
     { unimplemented!() }
 
     #[verifier::external_body]
     pub fn iter_next(&mut self) -> (r: Option<Stream>)
         ensures
             match r {
-                Some(s) => s.id.0 != 0 && final(self).held() == old(self).held() + 1,
-                None => final(self).held() == old(self).held(),
+                Some(s) => s.id.0 != 0 && final(self).held() == old(self).held() + 1 && final(self).passes@ == old(self).passes@,
+                None => final(self).held() == old(self).held() && final(self).passes@ == old(self).passes@ + 1,
             },
     { unimplemented!() }
 
@@ -92,7 +93,7 @@ impl SStore {
     /// Store::resolve(key) without any claim on the handle count
     #[verifier::external_body]
     pub fn resolve_key(&mut self, key: Key) -> (s: Stream)
-        ensures s == old(self).spec_get(key) && s.key == key && final(self).held() == old(self).held() + 1,
+        ensures s == old(self).spec_get(key) && s.key == key && final(self).held() == old(self).held() + 1 && final(self).passes@ == old(self).passes@,
     { unimplemented!() }
 
     /// `me.store.resolve(key).is_pending_open` — reading one flag through a temporary Ptr
@@ -105,7 +106,7 @@ impl SStore {
     /// has been created for it yet (ASSUMED link between two model calls: the model does not track store contents)
     #[verifier::external_body]
     pub fn resolve_promised_child(&mut self, key: Key) -> (s: Stream)
-        ensures s.key == key && s.ref_count == 0 && final(self).held() == old(self).held() + 1,
+        ensures s.key == key && s.ref_count == 0 && final(self).held() == old(self).held() + 1 && final(self).passes@ == old(self).passes@,
     { unimplemented!() }
 
     /// Store::insert(id, stream): the record enters the store and a Ptr to it comes back (owned model: the same stream,
@@ -119,14 +120,14 @@ impl SStore {
             stream.send_flow.w() == send_init@ && stream.send_flow.a() == 0,
             stream.recv_flow.w() == recv_init@ && stream.recv_flow.a() == recv_init@,
         ensures
-            s == (Stream { key: s.key, ..stream }) && final(self).held() == old(self).held() + 1,
+            s == (Stream { key: s.key, ..stream }) && final(self).held() == old(self).held() + 1 && final(self).passes@ == old(self).passes@,
             forall|k: Key| final(self).spec_get(k) == old(self).spec_get(k),
     { unimplemented!() }
 
     /// Ptr::remove (after Ptr::unlink): the record leaves the store
     #[verifier::external_body]
     pub fn remove(&mut self, stream: Stream)
-        ensures final(self).held() == old(self).held() - 1,
+        ensures final(self).held() == old(self).held() - 1 && final(self).passes@ == old(self).passes@,
     { unimplemented!() }
 
     /// Store::find_mut(&id) (owned model)
@@ -135,22 +136,22 @@ impl SStore {
         ensures
             r == old(self).spec_find(*id),
             match r {
-                Some(s) => s.id == *id && final(self).held() == old(self).held() + 1,
-                None => final(self).held() == old(self).held(),
+                Some(s) => s.id == *id && final(self).held() == old(self).held() + 1 && final(self).passes@ == old(self).passes@,
+                None => final(self).held() == old(self).held() && final(self).passes@ == old(self).passes@,
             },
     { unimplemented!() }
 
     /// a Ptr that goes out of scope (no obligation on the stream)
     #[verifier::external_body]
     pub fn put_back_any(&mut self, stream: Stream)
-        ensures final(self).held() == old(self).held() - 1,
+        ensures final(self).held() == old(self).held() - 1 && final(self).passes@ == old(self).passes@,
     { unimplemented!() }
 
     /// a Ptr that goes out of scope with the stream exactly as it was found
     #[verifier::external_body]
     pub fn put_back_same(&mut self, stream: Stream, s0: Ghost<Stream>)
         requires stream == s0@,
-        ensures final(self).held() == old(self).held() - 1,
+        ensures final(self).held() == old(self).held() - 1 && final(self).passes@ == old(self).passes@,
     { unimplemented!() }
 
     /// a visited stream that the function leaves alone goes back EXACTLY as it was, and only if the rule says so:
@@ -158,7 +159,7 @@ impl SStore {
     #[verifier::external_body]
     pub fn put_back_untouched(&mut self, stream: Stream, s0: Ghost<Stream>, peer: Ghost<PeerDyn>, cut: Ghost<StreamId>)
         requires stream == s0@, !(s0@.id.0 > cut@.0 && local_init(peer@, s0@.id)),
-        ensures final(self).held() == old(self).held() - 1,
+        ensures final(self).held() == old(self).held() - 1 && final(self).passes@ == old(self).passes@,
     { unimplemented!() }
 }
 
@@ -173,7 +174,7 @@ impl Counts {
             stream.recv_task is None && stream.push_task is None && stream.send_task is None,
             stream.pending_send@.len() == 0,
         ensures
-            final(store).held() == old(store).held() - 1,
+            final(store).held() == old(store).held() - 1 && final(store).passes@ == old(store).passes@,
             *final(self) == (Counts { transitions: Ghost(old(self).transitions@ + 1), ..*old(self) }),
     { unimplemented!() }
 }
@@ -233,7 +234,7 @@ impl Counts {
     #[verifier::external_body]
     pub fn transition_after_any(&mut self, stream: Stream, is_reset_counted: bool, store: &mut SStore)
         ensures
-            final(store).held() == old(store).held() - 1,
+            final(store).held() == old(store).held() - 1 && final(store).passes@ == old(store).passes@,
             *final(self) == (Counts { transitions: Ghost(old(self).transitions@ + 1), ..*old(self) }),
     { unimplemented!() }
 }
@@ -249,8 +250,8 @@ impl QueuePP {
     pub fn pop(&mut self, store: &mut SStore) -> (r: Option<Stream>)
         ensures
             match r {
-                Some(s) => old(self).ghost_len > 0 && final(self).ghost_len == old(self).ghost_len - 1 && final(store).held() == old(store).held() + 1,
-                None => old(self).ghost_len == 0 && final(self).ghost_len == 0 && final(store).held() == old(store).held(),
+                Some(s) => old(self).ghost_len > 0 && final(self).ghost_len == old(self).ghost_len - 1 && final(store).held() == old(store).held() + 1 && final(store).passes@ == old(store).passes@,
+                None => old(self).ghost_len == 0 && final(self).ghost_len == 0 && final(store).held() == old(store).held() && final(store).passes@ == old(store).passes@,
             },
     { unimplemented!() }
 }
@@ -268,7 +269,7 @@ impl Counts {
     #[verifier::external_body]
     pub fn transition_after(&mut self, stream: Stream, is_reset_counted: bool, store: &mut SStore)
         ensures
-            final(store).held() == old(store).held() - 1,
+            final(store).held() == old(store).held() - 1 && final(store).passes@ == old(store).passes@,
             *final(self) == (Counts { transitions: Ghost(old(self).transitions@ + 1), ..*old(self) }),
     { unimplemented!() }
 }
@@ -322,7 +323,7 @@ impl Send {
     /// Send::recv_connection_window_update / recv_stream_window_update (verified in units v_prioritize / v_send)
     #[verifier::external_body]
     pub fn recv_connection_window_update(&mut self, frame: WuFrame, store: &mut SStore, counts: &mut Counts) -> (r: Result<(), Reason>)
-        ensures final(store).held() == old(store).held(), final(counts).transitions@ == old(counts).transitions@,
+        ensures final(store).held() == old(store).held() && final(store).passes@ == old(store).passes@, final(counts).transitions@ == old(counts).transitions@,
     { unimplemented!() }
 
     #[verifier::external_body]
@@ -476,7 +477,7 @@ impl Actions {
     /// Counts::transition; not verified here)
     #[verifier::external_body]
     pub fn clear_queues(&mut self, clear_pending_accept: bool, store: &mut SStore, counts: &mut Counts)
-        ensures final(store).held() == old(store).held(), final(self).conn_error == old(self).conn_error,
+        ensures final(store).held() == old(store).held() && final(store).passes@ == old(store).passes@, final(self).conn_error == old(self).conn_error,
     { unimplemented!() }
 }
 
@@ -546,7 +547,7 @@ impl SInner {
     //@subst actions.send.recv_go_away(last_stream_id)?;=>self.actions.send.recv_go_away(last_stream_id)?;
     //@subst Error::remote_go_away(frame.debug_data().clone(), frame.reason())=>Error::remote_go_away(frame.reason())
     //@subst let peer = counts.peer();=>let peer = self.counts.peer();
-    //@subst_re self\.store\.for_each\(\|stream\| \{ ==>> self.store.iter_begin(); loop invariant self.store.held() == old(self).store.held(), self.actions.send.max_stream_id == last_stream_id, last_stream_id == frame.last_stream_id, err == Error::GoAway(frame.reason, Initiator::Remote), peer == self.counts.peer, self.counts.peer == old(self).counts.peer, self.actions.conn_error == old(self).actions.conn_error, { let mut stream = match self.store.iter_next() { Some(s) => s, None => { break; } }; let ghost s0 = stream; let ghost sel = s0.id.0 > last_stream_id.0 && local_init(peer, s0.id);
+    //@subst_re self\.store\.for_each\(\|stream\| \{ ==>> self.store.iter_begin(); loop invariant_except_break self.store.passes@ == old(self).store.passes@, invariant self.store.held() == old(self).store.held(), self.actions.send.max_stream_id == last_stream_id, last_stream_id == frame.last_stream_id, err == Error::GoAway(frame.reason, Initiator::Remote), peer == self.counts.peer, self.counts.peer == old(self).counts.peer, self.actions.conn_error == old(self).actions.conn_error, ensures self.store.passes@ == old(self).store.passes@ + 1, { let mut stream = match self.store.iter_next() { Some(s) => s, None => { break; } }; let ghost s0 = stream; let ghost sel = s0.id.0 > last_stream_id.0 && local_init(peer, s0.id);
     //@subst_re counts\.transition\(stream, \|counts, stream\| \{ ==>> { let is_pending_reset = stream.is_pending_reset_expiration();
     //@subst actions.recv.handle_error(&err, &mut *stream);=>self.actions.recv.handle_error(&err, &mut stream);
     //@subst actions.send.handle_error(send_buffer, stream, counts);=>self.actions.send.handle_error(send_buffer, &mut stream, &mut self.counts);
@@ -558,6 +559,7 @@ impl SInner {
     //@spec         frame.last_stream_id.0 > old(self).actions.send.max_stream_id.0 ==> r is Err && final(self).counts.transitions@ == old(self).counts.transitions@
     //@spec             && final(self).actions.conn_error == old(self).actions.conn_error,
     //@spec         frame.last_stream_id.0 <= old(self).actions.send.max_stream_id.0 ==> r is Ok && final(self).actions.send.max_stream_id == frame.last_stream_id
+    //@spec             && final(self).store.passes@ == old(self).store.passes@ + 1
     //@spec             // the connection's result reports the peer's code
     //@spec             && final(self).actions.conn_error == Some(Error::GoAway(frame.reason, Initiator::Remote)),
     //@end
@@ -569,7 +571,7 @@ impl SInner {
     //@subst_re fn handle_error<B>\(&mut self, send_buffer: &SendBuffer<B>, err: proto::Error\) -> StreamId=>fn handle_error(&mut self, send_buffer: &mut SendBuf, err: Error) -> StreamId
     //@subst_re let actions = &mut self\.actions;\s*let counts = &mut self\.counts;\s*let mut send_buffer = send_buffer\.inner\.lock\(\)\.unwrap\(\);\s*let send_buffer = &mut \*send_buffer;=>
     //@subst let last_processed_id = actions.recv.last_processed_id();=>let last_processed_id = self.actions.recv.last_processed_id();
-    //@subst_re self\.store\.for_each\(\|stream\| \{ ==>> self.store.iter_begin(); loop invariant self.store.held() == old(self).store.held(), self.actions.recv == old(self).actions.recv, self.actions.conn_error == old(self).actions.conn_error, { let mut stream = match self.store.iter_next() { Some(s) => s, None => { break; } }; let ghost s0 = stream;
+    //@subst_re self\.store\.for_each\(\|stream\| \{ ==>> self.store.iter_begin(); loop invariant_except_break self.store.passes@ == old(self).store.passes@, invariant self.store.held() == old(self).store.held(), self.actions.recv == old(self).actions.recv, self.actions.conn_error == old(self).actions.conn_error, ensures self.store.passes@ == old(self).store.passes@ + 1, { let mut stream = match self.store.iter_next() { Some(s) => s, None => { break; } }; let ghost s0 = stream;
     //@subst_re counts\.transition\(stream, \|counts, stream\| \{ ==>> { let is_pending_reset = stream.is_pending_reset_expiration();
     //@subst actions.recv.handle_error(&err, &mut *stream);=>self.actions.recv.handle_error(&err, &mut stream);
     //@subst actions.send.handle_error(send_buffer, stream, counts);=>self.actions.send.handle_error(send_buffer, &mut stream, &mut self.counts);
@@ -578,6 +580,7 @@ impl SInner {
     //@spec     ensures
     //@spec         final(self).store.held() == old(self).store.held(),
     //@spec         final(self).actions.conn_error == Some(err),
+    //@spec         final(self).store.passes@ == old(self).store.passes@ + 1,     // EVERY stream was visited (and, by the obligations inside the loop, failed)
     //@spec         // C15: the id reported in our GOAWAY is the highest peer stream handed to the application
     //@spec         r == old(self).actions.recv.last_processed_id,
     //@end
@@ -590,17 +593,21 @@ impl SInner {
     //@attr #[verifier::exec_allows_no_decreases_clause]
     //@subst_re fn recv_eof<B>\(\s*&mut self,\s*send_buffer: &SendBuffer<B>,\s*clear_pending_accept: bool,\s*\) -> Result<\(\), \(\)>=>fn recv_eof(&mut self, send_buffer: &mut SendBuf, clear_pending_accept: bool) -> Result<(), ()>
     //@subst_re let actions = &mut self\.actions;\s*let counts = &mut self\.counts;\s*let mut send_buffer = send_buffer\.inner\.lock\(\)\.unwrap\(\);\s*let send_buffer = &mut \*send_buffer;=>
-    //@subst if actions.conn_error.is_none() {=>if self.actions.conn_error.is_none() {
-    //@subst_re actions\.conn_error = Some\(\s*io::Error::new\(.*?\)\s*\.into\(\),\s*\);=>self.actions.conn_error = Some(Error::Io);
-    //@subst_re self\.store\.for_each\(\|stream\| \{ ==>> let ghost ce = self.actions.conn_error; self.store.iter_begin(); loop invariant self.store.held() == old(self).store.held(), self.actions.conn_error == ce, { let mut stream = match self.store.iter_next() { Some(s) => s, None => { break; } }; let ghost s0 = stream;
+    //@subst_re (?<![\w.])actions\.=>self.actions.
+    //@subst_re Some\(\s*io::Error::new\(.*?\)\s*\.into\(\),\s*\)=>Some(Error::Io)
+    //@subst_re self\.store\.for_each\(\|stream\| \{ ==>> let ghost ce = self.actions.conn_error; self.store.iter_begin(); loop invariant_except_break self.store.passes@ == old(self).store.passes@, invariant self.store.held() == old(self).store.held(), self.actions.conn_error == ce, ensures self.store.passes@ == old(self).store.passes@ + 1, { let mut stream = match self.store.iter_next() { Some(s) => s, None => { break; } }; let ghost s0 = stream;
     //@subst_re counts\.transition\(stream, \|counts, stream\| \{ ==>> { let is_pending_reset = stream.is_pending_reset_expiration();
-    //@subst actions.recv.recv_eof(stream);=>self.actions.recv.recv_eof(&mut stream);
-    //@subst actions.send.handle_error(send_buffer, stream, counts);=>self.actions.send.handle_error(send_buffer, &mut stream, &mut self.counts);
-    //@subst_re \}\)\s*\}\);\s*actions\.clear_queues\(clear_pending_accept, &mut self\.store, counts\); ==>> self.counts.transition_after_failed(stream, is_pending_reset, &mut self.store, Ghost(s0), Ghost(Error::Io), Ghost(true)); } } self.actions.clear_queues(clear_pending_accept, &mut self.store, &mut self.counts);
+    //@subst self.actions.recv.recv_eof(stream);=>self.actions.recv.recv_eof(&mut stream);
+    //@subst self.actions.send.handle_error(send_buffer, stream, counts);=>self.actions.send.handle_error(send_buffer, &mut stream, &mut self.counts);
+    //@subst_re \}\)\s*\}\);(\s*self\.actions\.clear_queues) ==>> self.counts.transition_after_failed(stream, is_pending_reset, &mut self.store, Ghost(s0), Ghost(Error::Io), Ghost(true)); } }\1
+    //@subst_re self\.actions\.clear_queues\(clear_pending_accept, &mut self\.store, counts\);=>self.actions.clear_queues(clear_pending_accept, &mut self.store, &mut self.counts);
     //@ret r
     //@spec     ensures
     //@spec         r is Ok,
     //@spec         final(self).store.held() == old(self).store.held(),
+    //@spec         // EVERY stream is visited (and, by the obligations inside the loop, failed) — also when an error was recorded earlier:
+    //@spec         // a GOAWAY from the peer records one but leaves the streams at or below its last-stream-id running
+    //@spec         final(self).store.passes@ == old(self).store.passes@ + 1,
     //@spec         final(self).actions.conn_error == (if old(self).actions.conn_error is Some { old(self).actions.conn_error } else { Some(Error::Io) }),
     //@end
 }
